@@ -203,6 +203,18 @@ def updateFile (ls : List Line) (sol : List Int) : Except PyErr (List Line) :=
 def stripLines (ls : List Line) : List Line :=
   ((ls.dropWhile List.isEmpty).reverse.dropWhile List.isEmpty).reverse
 
+/-- `call_cmsgen_python`: the `v …` line written for one solver solution
+    (`solution[0]` is a placeholder, `solution[v]` the value of variable `v`)
+    restricted to the sampling set. -/
+def cmsgenSampleLits (solution : List Bool) (sampling : List Nat) : List Int :=
+  sampling.map (fun v => if v < solution.length && solution.getD v false then (v : Int) else -(v : Int))
+
+def cmsgenSampleLine (solution : List Bool) (sampling : List Nat) : Line :=
+  Tok.v :: ((cmsgenSampleLits solution sampling).map Tok.int ++ [.int 0])
+
+/-- `call_unigen_python`: `v l1 … ln 0:1` for a sample (list of literals) returned by pyunigen -/
+def unigenSampleLine (sample : List Int) : Line := Tok.v :: (sample.map Tok.int ++ [.colon 1])
+
 /-! ## OPB -/
 
 structure OpbRow where
